@@ -597,11 +597,29 @@ def check_c10(rng, n, hashseeds=("0", "1", "2")):
             workers.append(subprocess.Popen([sys.executable, "-c", WORKER], env=env, stdin=subprocess.PIPE,
                                             stdout=subprocess.PIPE, stderr=subprocess.DEVNULL, text=True, bufsize=1))
         for i in range(n):
-            spec = simgen.gen_spec(rng, pairing=rng.choice(["batch", "queue", "dynamic", "greedy"]))
+            spec = simgen.gen_spec(rng, pairing=rng.choice(["batch", "batch", "queue", "dynamic", "greedy"]))
             # many simultaneously ready tasks on heterogeneous machines make order matter
-            if rng.random() < 0.6:
+            if rng.random() < 0.7:
+                nm = rng.randint(3, 6)
+                spec["machines"] = [{"id": "m%d" % k, "flops": f, "bw": rng.choice([1, 2, 4])}
+                                    for k, f in enumerate(rng.sample([2, 4, 5, 8, 10, 20, 40], nm))]
+                spec["max_ingest"] = min(spec["max_ingest"], nm)
                 for o in spec["observations"]:
-                    o["workflow"] = simgen.gen_workflow(rng, 7, [m["flops"] for m in spec["machines"]], shape="fan")
+                    o["workflow"] = simgen.gen_workflow(rng, 7, [m["flops"] for m in spec["machines"]],
+                                                        shape=rng.choice(["fan", "diamond", "random"]))
+                    o["ingest_demand"] = min(o["ingest_demand"], spec["max_ingest"])
+                if len(spec["observations"]) < 2:
+                    spec["observations"].append(dict(spec["observations"][0], name="b",
+                                                     start=spec["observations"][0]["start"] + 2))
+                if spec["scheduling"]["kind"] == "batch":
+                    spec["scheduling"] = {"kind": "batch", "partitions": rng.choice([1, 1, 2]), "min": 1, "split": None}
+                tot = sum(o["rate"] * o["duration"] for o in spec["observations"])
+                spec["hot"]["capacity"] = int(tot / 0.6) + 5
+                spec["cold"]["capacity"] = spec["hot"]["capacity"] + 5
+                spec["hot"]["rate"] = max([spec["hot"]["rate"]] + [o["rate"] for o in spec["observations"]])
+                spec["total_arrays"] = max(spec["total_arrays"], max(o["demand"] for o in spec["observations"]))
+                if spec.get("delay") and "prob" in spec["delay"]:
+                    spec["delay"] = None
             outs = []
             for w in workers:
                 w.stdin.write(json.dumps(spec) + "\n")
